@@ -2,7 +2,8 @@
    own measure [work], so every schedule performs at most [total_work] steps and (with
    deadlock freedom) every program can be run to completion from every reachable state.
    (Since the read retry happens under the state lock there is no retry edge any more:
-   GReread -> GOpenL -> finish.)
+   GReread -> GOpenL -> finish.)  A get_range costs what a get costs (its pre-open exits only
+   shorten it); an iteration is two steps (take the call, read under the guard: IRead).
 
      work B ts            per-thread measure (B bounds the number of indexed keys: the number
                           of KPut calls of the programs, KmBound / km_bound)
@@ -64,7 +65,8 @@ Definition pc_work (B : nat) (p : pc) : nat :=
   | WReleased _ _ => 3 | WCkS _ _ => 2 | WCkW _ _ => 1
   | RRead _ => 10 | RScanned _ => 9
   | RRRead _ _ => 9 + B | RRScanned ks => 8 + length ks
-  | GRead _ _ => 5 | GLooked _ _ _ => 4 | GOpen _ _ => 3 | GReread _ _ => 2 | GOpenL _ _ => 1
+  | GRead _ _ => 5 | GLooked _ _ _ => 4 | GOpen _ _ _ => 3 | GReread _ _ _ => 2 | GOpenL _ _ _ => 1
+  | IRead => 1
   | OLockI todo _ _ => 1 + 3 * length todo
   | ORead _ rest _ _ => 3 + 3 * length rest
   | OUnlink _ rest _ _ => 2 + 3 * length rest
@@ -73,7 +75,7 @@ Definition pc_work (B : nat) (p : pc) : nat :=
 Definition call_work (B : nat) (c : ccall) : nat :=
   match c with
   | KPut _ _ => 12 | KAbort _ _ => 1 | KRemove _ => 11 | KRemoveRange _ _ => 10 + B
-  | KGet _ | KGetSize _ => 6 | KCheckpoint => 3
+  | KGet _ | KGetSize _ | KGetRange _ _ _ => 6 | KIter => 2 | KCheckpoint => 3
   | KDelOrphans hs => 2 + 3 * length hs
   end.
 
